@@ -1,5 +1,6 @@
 import WhVerif.Util.Proto
 import WhVerif.Model.C14
+import WhVerif.Model.C14Text
 import WhVerif.Spec.C14
 namespace WhVerif.Driver.C14
 open Lean WhVerif.Proto WhVerif.C14
@@ -23,10 +24,105 @@ def passJson (o : Opts) (rows : List (List Nat)) (p : Pass) : Json :=
   Json.mkObj [("written", ofList (fun k => ofNatList (written p k)) (List.range (o.ploidy + 1))),
               ("hist", ofList ofNatList rows)]
 
+
+def argErrJson : ArgErr → Json
+  | .usage => Json.str "usage"
+  | .typeError => Json.str "TypeError"
+
+def parseOutArgs (j : Json) : Option OutArgs := do
+  let outs : Option Nat := match j.getObjVal? "outs" with
+    | .ok v => asNat? v
+    | _ => none
+  pure ⟨← getBool? j "h1", ← getBool? j "h2", outs, ← getBool? j "untagged"⟩
+
+def parseMagic : String → Option Magic
+  | "cram" => some .cram | "vcf" => some .vcf | "bam" => some .bam | "gzvcf" => some .gzVcf | "other" => some .other
+  | _ => none
+
+def pairList? (j : Json) : Option (List (Nat × Nat)) := do
+  (← asArr? j).mapM (fun e => do
+    match ← asArr? e with
+    | [a, b] => pure (← asNat? a, ← asNat? b)
+    | _ => none)
+
+/-- distinct names of the assignment list with the haplotype the table answers, sorted by name -/
+def tableJson (t : Table) : Json :=
+  let names := (dedup (t.assign.map (·.1))).toArray.qsort (· < ·) |>.toList
+  Json.mkObj [("hap", ofList (fun n => Json.arr #[Json.str n, ofNat (t.hapOf n)]) names),
+              ("known", ofList Json.str ((dedup t.known).toArray.qsort (· < ·) |>.toList))]
+
+/-- `c14.run {args:{h1,h2,outs?,untagged}, add, discard, largest, text, reads}` →
+`{argerr} | {err} | {ploidy, requested, written, hist, histText, byList: [[outputs] per read] | null}` -/
+def handleRun (j : Json) : Option Json :=
+  let parsed : Option (OutArgs × Flags × String × List Read) := do
+    let a ← parseOutArgs (← getObj? j "args")
+    let f : Flags := ⟨← getBool? j "add", ← getBool? j "discard", ← getBool? j "largest"⟩
+    let text ← getStr? j "text"
+    let reads ← (← getList? j "reads").mapM parseRead
+    pure (a, f, text, reads)
+  match parsed with
+  | none => some badInput
+  | some (a, f, text, reads) =>
+    match runSplit a f text.toList reads with
+    | .error (.inl e) => some (Json.mkObj [("argerr", argErrJson e)])
+    | .error (.inr e) => some (Json.mkObj [("err", errJson e)])
+    | .ok (o, p) =>
+      let byList := match parseText o text.toList with
+        | .ok lines =>
+          if (lines.map (·.name)).length == (dedup (lines.map (·.name))).length then
+            ofList (fun r => ofNatList (prescribedByList o lines r)) reads
+          else Json.null
+        | .error _ => Json.null
+      some (Json.mkObj [("ploidy", ofNat o.ploidy), ("requested", ofList Json.bool o.requested),
+        ("written", ofList (fun k => ofNatList (written p k)) (List.range (o.ploidy + 1))),
+        ("hist", ofList ofNatList (histRowsFix o p)), ("histText", Json.str (histText o p)),
+        ("colSums", ofNatList ((List.range (o.ploidy + 1)).map (colSum (histRowsFix o p)))),
+        ("byList", byList)])
+
+/-- `c14.list {ploidy, discard, largest, text}` → `{four, hap, known} | {err}`: `check_haplotag_list_information` +
+`process_haplotag_list_file` (+ the two checks `run_split` makes around them) -/
+def handleList (j : Json) : Option Json :=
+  let parsed : Option (Opts × String) := do
+    let o : Opts := { ploidy := ← getNat? j "ploidy", requested := [], addUntagged := false,
+                      discardUnknown := ← getBool? j "discard", onlyLargest := ← getBool? j "largest" }
+    pure (o, ← getStr? j "text")
+  match parsed with
+  | none => some badInput
+  | some (o, text) =>
+    match processListText o text.toList with
+    | .error e => some (Json.mkObj [("err", errJson e)])
+    | .ok t =>
+      let four := match splitLines text.toList with
+        | first :: _ => fourColOf (colsOf first)
+        | [] => false
+      some ((tableJson t).setObjVal! "four" (Json.bool four))
+
+/-- `c14.bamlen {recs: [[seqlen, [[op, n]…]]…]}` → lengths; `c14.detect {magic, path}` → "BAM" | "FASTQ" | "ValueError" -/
+def handleSmall (op : String) (j : Json) : Option Json :=
+  if op == "c14.bamlen" then
+    let parsed : Option (List (Nat × List (Nat × Nat))) := do
+      (← getList? j "recs").mapM (fun e => do
+        match ← asArr? e with
+        | [a, b] => pure (← asNat? a, ← pairList? b)
+        | _ => none)
+    match parsed with
+    | none => some badInput
+    | some recs => some (ofNatList (recs.map (fun r => bamLen r.1 r.2)))
+  else if op == "c14.detect" then
+    match (do pure (← parseMagic (← getStr? j "magic"), ← getStr? j "path") : Option (Magic × String)) with
+    | none => some badInput
+    | some (m, path) =>
+      some (Json.str (match detectInput m path with
+        | some .bam => "BAM" | some .fastq => "FASTQ" | none => "ValueError"))
+  else none
+
 /-- `c14.split {ploidy, requested, add, discard, largest, rows, reads}` →
 `{cur: {written, hist} | {err}, fix: …, prescribed: [[outputs] per read]}` -/
 def handle (op : String) (j : Json) : Option Json :=
-  if op == "c14.split" then
+  if op == "c14.run" then handleRun j
+  else if op == "c14.list" then handleList j
+  else if op == "c14.bamlen" || op == "c14.detect" then handleSmall op j
+  else if op == "c14.split" then
     let parsed : Option (Opts × List (List String) × List Read) := do
       let o : Opts := { ploidy := ← getNat? j "ploidy", requested := ← boolList? (← getObj? j "requested"),
                         addUntagged := ← getBool? j "add", discardUnknown := ← getBool? j "discard",
